@@ -4,12 +4,15 @@ Runs the real readers / writers of mokapot.tabular_data and mokapot.streaming on
 The oracle is the in-memory table the files were produced from (written with pandas / pyarrow directly, never
 through the code under test): every reader must deliver exactly table[columns], whole and chunk-wise, with a row
 index 0..n-1; every writer's finalised file (read back with pandas / pyarrow directly and through
-get_associated_reader()) must hold exactly the appended rows in order.
+get_associated_reader()) must hold exactly the appended rows in order. Frames whose column layout differs from the
+writer's column list (other order, an extra, a missing or a differently named column) must be stored by NAME or be
+refused (an exception): never stored positionally, padded or truncated.
 """
 import json
 import logging
 import math
 import random
+import sqlite3
 import warnings
 from pathlib import Path
 
@@ -287,14 +290,17 @@ def _worker_init():
     pa.set_io_thread_count(1)
 
 
-def _run_tasks(ck, func, tasks):
-    """tasks are listed big-first (load balance); events are replayed small-first in a fixed order, so the
-    result does not depend on scheduling and the smallest reproducers are the ones that are kept."""
+def _pool_map(func, tasks):
     import multiprocessing as mp
     with mp.get_context("fork").Pool(min(14, len(tasks)), initializer=_worker_init) as pool:
-        results = pool.map(func, tasks, chunksize=1)
+        return pool.map(func, tasks, chunksize=1)
+
+
+def _replay_events(ck, event_lists):
+    """event_lists in the order in which they are to be replayed (small inputs first, so that the smallest
+    reproducers are the ones that are kept); one violation of every distinct case id goes first."""
     viol, seen = [], set()
-    for events in reversed(results):
+    for events in event_lists:
         for e in events:
             if e[0] == "case":
                 ck.case(e[1], nontrivial=e[2])
@@ -307,6 +313,12 @@ def _run_tasks(ck, func, tasks):
         seen.add(e[1])
     for e in first + rest:
         ck.violation(e[1], e[2], e[3])
+
+
+def _run_tasks(ck, func, tasks):
+    """tasks are listed big-first (load balance); events are replayed small-first in a fixed order, so the
+    result does not depend on scheduling and the smallest reproducers are the ones that are kept."""
+    _replay_events(ck, list(reversed(_pool_map(func, tasks))))
 
 
 def check_readers(tier, seed):
@@ -538,6 +550,357 @@ def _writer_case_id(kind, cls):
     return "%s-%s" % ("buffered-" + kind[1].lower() if kind[1] else kind[0] + "-writer", cls)
 
 
+# ------------------------------------------------------------------------------------------------ column layouts
+# Appends whose frame does not have the writer's column list: the statement wants every value under ITS OWN column
+# or a refusal. The oracle works by column NAME only (never by position): a frame with exactly the writer's columns
+# in another order has well-defined rows {name: value}; a frame with an extra, a missing or a differently named
+# column cannot be stored faithfully in a file with the writer's columns and has to be refused.
+SQL_COLS = ["peptide", "q_value", "posterior_error_prob", "score"]
+# ConfidenceSqliteWriter(level="peptides") documents: INSERT INTO PEPTIDE_VALIDATION(PEPTIDE_ID,FDR,PEP,SVM_SCORE)
+# fed from the frame columns peptide, q_value, posterior_error_prob, score (the table has to exist beforehand)
+SQL_TABLE, SQL_FIELDS = "PEPTIDE_VALIDATION", ["PEPTIDE_ID", "FDR", "PEP", "SVM_SCORE"]
+EXTRA_COL = "x_extra"
+# Only frames with the writer's columns in another ORDER are judged: C13 speaks about rows that are appended and
+# read back unchanged, which a frame with the right columns in another order can satisfy (or be refused).  Frames
+# with an extra, a missing or a renamed column cannot be stored faithfully at all and the statement says nothing
+# about them (on the current tree ParquetFileWriter drops an extra column and BufferedWriter pads a missing one
+# with nulls instead of refusing - observations, not violations of C13): demanding a refusal there would demand
+# more than the property states.  The machinery for those classes is kept but switched off.
+DEVIATIONS = ["permuted-columns"]
+ALL_DEVIATION_CLASSES = ["permuted-columns", "extra-column", "missing-column", "wrong-name-column"]
+MUST_REFUSE = ("extra-column", "missing-column", "wrong-name-column")
+LAYOUT_KINDS = [("csv", None), ("parquet", None), ("sqlite", None),
+                ("csv", "DataFrame"), ("parquet", "DataFrame"), ("sqlite", "DataFrame"),
+                ("csv", "Dicts"), ("parquet", "Dicts"), ("csv", "Records"), ("parquet", "Records")]
+
+
+def layout_table(n, seed, fmt):
+    df = make_table(n, seed + 17)
+    if fmt != "sqlite":
+        return df
+    return pd.DataFrame({"peptide": df["i"], "q_value": df["f"], "posterior_error_prob": df["g"],
+                         "score": make_table(n, seed + 31)["f"]})
+
+
+def layout_class(layout, cols):
+    """Class of a frame layout relative to the writer's column list, by names only."""
+    layout, cols = list(layout), list(cols)
+    if layout == cols:
+        return "conforming"
+    if sorted(layout) == sorted(cols):
+        return "permuted-columns"
+    extra = [c for c in layout if c not in cols]
+    missing = [c for c in cols if c not in layout]
+    if extra and not missing:
+        return "extra-column"
+    if missing and not extra:
+        return "missing-column"
+    return "wrong-name-column"
+
+
+def frame_with_layout(part, layout):
+    """The rows of `part` as a frame with the columns `layout`: a known name carries its own values, NAME_X the
+    values of NAME (a differently named column), anything else fresh integers."""
+    data = {}
+    for name in layout:
+        if name in part.columns:
+            data[name] = part[name]
+        elif name.endswith("_X") and name[:-2] in part.columns:
+            data[name] = part[name[:-2]]
+        else:
+            data[name] = pd.Series([900 + r for r in range(len(part))], index=part.index, dtype="int64")
+    return pd.DataFrame(data, columns=list(layout), index=part.index)
+
+
+def layout_variants(cols, rng):
+    """deviation class -> list of layouts (lists of column names)"""
+    cols = list(cols)
+    perms = [list(reversed(cols)), cols[1:] + cols[:1], cols[-1:] + cols[:-1]]
+    for _ in range(4):
+        p = list(cols)
+        rng.shuffle(p)
+        perms.append(p)
+    if len(cols) >= 3:
+        perms.append([cols[1], cols[0]] + cols[2:])              # only two neighbours swapped
+    uniq = []
+    for p in perms:
+        if p != cols and p not in uniq:
+            uniq.append(p)
+    mid = len(cols) // 2
+    return {"permuted-columns": uniq,
+            "extra-column": [cols + [EXTRA_COL], [EXTRA_COL] + cols, cols[:mid] + [EXTRA_COL] + cols[mid:],
+                             list(reversed(cols)) + [EXTRA_COL]],
+            "missing-column": [cols[1:], cols[:-1], cols[:mid] + cols[mid + 1:], list(reversed(cols))[1:]],
+            "wrong-name-column": [[cols[0] + "_X"] + cols[1:], cols[:-1] + [cols[-1] + "_X"],
+                                  cols[:mid] + [cols[mid] + "_X"] + cols[mid + 1:]]}
+
+
+def make_layout_writer(kind, path, cols, buffer_size, via_factory):
+    fmt, buf = kind
+    if fmt != "sqlite":
+        return make_writer(kind, path, cols, buffer_size, via_factory)
+    from mokapot.tabular_data import BufferedWriter, TableType
+    from mokapot.confidence_writer import ConfidenceSqliteWriter
+    con = sqlite3.connect(path)
+    con.execute("CREATE TABLE %s (PEPTIDE_ID INTEGER, FDR REAL, PEP REAL, SVM_SCORE REAL)" % SQL_TABLE)
+    con.commit()
+    con.close()
+    inner = ConfidenceSqliteWriter(path, list(cols), level="peptides")
+    return inner if buf is None else BufferedWriter(inner, buffer_size, TableType[buf])
+
+
+def read_back_layout(fmt, path):
+    if fmt != "sqlite":
+        return read_back(fmt, path)
+    con = sqlite3.connect(path)
+    try:
+        rows = con.execute("SELECT %s FROM %s ORDER BY rowid" % (", ".join(SQL_FIELDS), SQL_TABLE)).fetchall()
+    finally:
+        con.close()
+    return pd.DataFrame({c: pd.Series([r[k] for r in rows], dtype=(None if rows else "object"))
+                         for k, c in enumerate(SQL_COLS)})
+
+
+def diff_by_name(got, cols, exp_rows, prefix):
+    """Like diff_frame, but the stored columns are identified by their NAME (their order in the file is the matter
+    of the plain round-trip check); prefix=True: the stored rows only have to be a leading part of exp_rows."""
+    if not isinstance(got, pd.DataFrame):
+        return "not-a-frame", "result is %s" % type(got).__name__
+    names = [str(c) for c in got.columns]
+    if sorted(names) != sorted(cols):
+        return "columns-differ", "stored columns %s, writer columns %s" % (names, list(cols))
+    got = got.set_axis(names, axis=1)[list(cols)]
+    if prefix:
+        if len(got) > len(exp_rows):
+            return "row-count-differs", "%d rows stored, only %d rows could be stored faithfully" % (
+                len(got), len(exp_rows))
+        exp_rows = exp_rows[:len(got)]
+    return diff_frame(got, list(cols), exp_rows, check_index=False)
+
+
+def _pieces(frame, buf, k):
+    if buf in (None, "DataFrame"):
+        return [frame]
+    if buf == "Dicts":                                   # key order of the dicts = column order of the frame
+        recs = frame.to_dict(orient="records")
+        return [recs[0]] if (len(recs) == 1 and k % 2 == 0) else [recs]
+    return list(frame.to_records(index=False))           # Records: one numpy.record per append
+
+
+def run_layout_case(d, df, cols, kind, buffer_size, plan, layouts, style, via_factory):
+    """One history of appends; layouts: {index of the append in plan: column layout of that frame} (every other
+    frame has the writer's column list). The history ends at the first exception (a refusal); then the writer is
+    finalised and the file inspected.
+    -> (deviation class of the history, list of (problem class, text))"""
+    fmt, buf = kind
+    cols = list(cols)
+    path = Path(d) / {"parquet": "lay.parquet", "sqlite": "lay.db"}.get(fmt, "lay.csv")
+    if path.exists():
+        path.unlink()
+    layouts = {int(k): list(v) for k, v in layouts.items()}
+    sub = df[cols]
+    by_name = rows_of(sub, cols)                 # row r of the table as the tuple of its values in writer-column order
+
+    def frame(k):
+        a, b = plan[k]
+        return sub.iloc[a:b] if k not in layouts else frame_with_layout(df.iloc[a:b], layouts[k])
+
+    def rows(k):                                 # rows of append k by column NAME (permuted / conforming frames)
+        a, b = plan[k]
+        return by_name[a:b]
+    # an empty frame holds nothing that could be stored wrongly, whatever its columns are
+    classes = ["conforming" if b <= a else layout_class(layouts.get(k, cols), cols) for k, (a, b) in enumerate(plan)]
+    deviant = [c for c in classes if c != "conforming"]
+    history_class = deviant[0] if deviant else "conforming"
+    unstorable = [k for k, c in enumerate(classes) if c in MUST_REFUSE]
+    limit = unstorable[0] if unstorable else len(plan)          # frames before `limit` have well-defined rows
+    probs = []
+    refused = None                                              # (index of the append | "finalize", exception)
+    accepted = 0                                                # appends that returned normally
+    try:
+        w = make_layout_writer(kind, path, cols, buffer_size, via_factory)
+        if style == "write":
+            try:
+                w.write(frame(0))
+                accepted = 1
+            except Exception as e:                                    # noqa: BLE001
+                refused = (0, type(e).__name__)
+        else:
+            w.initialize()
+            for k in range(len(plan)):
+                try:
+                    for piece in _pieces(frame(k), buf, k + len(plan)):
+                        w.append_data(piece)
+                    accepted = k + 1
+                except Exception as e:                                # noqa: BLE001
+                    refused = (k, type(e).__name__)
+                    break
+            try:
+                w.finalize()
+            except Exception as e:                                    # noqa: BLE001
+                refused = refused or ("finalize", type(e).__name__)
+                inner = getattr(w, "writer", None)
+                if inner is not None and hasattr(inner, "finalize"):
+                    try:                                              # what a caller's clean-up does: close the file
+                        inner.finalize()
+                    except Exception:                                 # noqa: BLE001
+                        pass
+    except Exception as e:                                            # noqa: BLE001
+        return history_class, [("setup-raises-" + type(e).__name__, str(e)[:200])]
+    if unstorable and refused is None:
+        probs.append(("not-refused", "append %d has the columns %s (writer: %s): no exception from append_data or "
+                      "finalize" % (unstorable[0], layouts.get(unstorable[0]), cols)))
+    storable = [r for k in range(limit) for r in rows(k)]
+    try:
+        if style == "write" and refused is not None and not path.exists():
+            got = None                                                # refused before anything was created
+        else:
+            got = read_back_layout(fmt, path)
+    except Exception as e:                                            # noqa: BLE001
+        probs.append(("file-unreadable-" + type(e).__name__, str(e)[:200]))
+        return history_class, probs
+    if got is None:
+        return history_class, probs
+    if refused is None and not unstorable:
+        bad = diff_by_name(got, cols, storable, prefix=False)
+        if bad:
+            probs.append(("file-" + bad[0], "no append was refused; file content by column name: " + bad[1]))
+    elif refused is not None:
+        if buf is None:
+            # an unbuffered writer holds nothing back: exactly the rows of the accepted appends are stored
+            exp = [r for k in range(min(limit, accepted)) for r in rows(k)]
+            over = accepted > limit
+        else:
+            exp = storable
+            over = isinstance(got, pd.DataFrame) and len(got) > len(storable)
+        if unstorable and over:
+            # the exception came too late: rows of the frame that cannot be stored faithfully are in the file
+            probs.append(("not-refused", "append %d has the columns %s (writer: %s): %d rows in the file, only %d "
+                          "precede it (the history raised %s at %s)" % (unstorable[0], layouts.get(unstorable[0]),
+                                                                        cols, len(got), len(storable), refused[1],
+                                                                        refused[0])))
+        else:
+            bad = diff_by_name(got, cols, exp, prefix=buf is not None)
+            if bad:
+                probs.append(("after-refusal-file-" + bad[0], "refused at %s with %s; file content by column "
+                              "name: %s" % (refused[0], refused[1], bad[1])))
+    return history_class, probs
+
+
+def _layout_writer_name(kind):
+    return "%s-%s" % (kind[0], "buffered" if kind[1] else "writer")
+
+
+def _layout_histories(plan, variants, k0, deviations):
+    """-> list of (position label, {append index: layout}); the deviant appends always carry rows."""
+    filled = [k for k, (a, b) in enumerate(plan) if b > a]
+    out = [("none", {})]
+    if not filled:
+        return out
+    spots = [("first", filled[:1])]
+    if len(filled) >= 2:
+        spots.append(("later", [filled[(k0 % (len(filled) - 1)) + 1]]))
+        spots.append(("all", filled))
+    for dk, dev in enumerate(deviations):
+        for sk, (label, where) in enumerate(spots):
+            v = variants[dev]
+            out.append((label, {k: v[(k0 + dk + sk + j) % len(v)] for j, k in enumerate(where)}))
+    return out
+
+
+def _layout_task(task):
+    n, seed, n_plans, kind_index, all_sizes = task
+    kind = LAYOUT_KINDS[kind_index]
+    fmt, buf = kind
+    ev = {dev: _Events() for dev in DEVIATIONS}
+    rng = random.Random(seed * 1000 + 50 * n + kind_index)
+    colsets = [list(SQL_COLS)] if fmt == "sqlite" else [list(COLS), ["s", "i", "g"], ["b", "f"]]
+    df = layout_table(n, seed, fmt)
+    if buf is None:
+        sizes = [0]
+    else:
+        sizes = list(range(2, n + 2)) if all_sizes else sorted({2, n // 2 + 1, n + 1} - {0, 1})
+    with scratch("c13l_") as d:
+        for bs in sizes:
+            plans = append_plans(n, rng, n_plans)
+            if buf == "Records":
+                plans = plans[:1]
+            for k, plan in enumerate(plans):
+                cols = colsets[(k + n + bs) % len(colsets)]
+                variants = layout_variants(cols, rng)
+                via_factory = (k + n) % 2 == 0 and fmt != "sqlite"
+                devs = [dev for dev in DEVIATIONS if not (fmt == "sqlite" and dev == "extra-column")]
+                hist = [(label, lay, "calls")
+                        for label, lay in _layout_histories(plan, variants, k + n + bs, devs)]
+                if buf is None and plan[0][1] > plan[0][0]:
+                    # the one-shot write() of a frame with permuted columns
+                    v = variants["permuted-columns"]
+                    hist.append(("write", {0: v[(k + n) % len(v)]}, "write"))
+                for label, lay, style in hist:
+                    this_plan = plan[:1] if style == "write" else plan
+                    dev, probs = run_layout_case(d, df, cols, kind, bs, this_plan, lay, style, via_factory)
+                    sink = ev["permuted-columns" if dev == "conforming" else dev]
+                    sink.case((n, kind, bs, this_plan, cols, sorted(lay.items()), style, via_factory),
+                              nontrivial=bool(lay) and n >= 2)
+                    for cls, text in probs:
+                        sink.violation("%s-%s-frame-%s%s" % (_layout_writer_name(kind), dev,
+                                                            "write-" if style == "write" else "", cls),
+                                       "%s, deviant append(s): %s: %s" % (_wname(kind), label, text),
+                                       {"n": n, "seed": seed, "writer": list(kind), "buffer_size": bs,
+                                        "plan": this_plan, "columns": cols,
+                                        "layouts": {str(a): b for a, b in lay.items()}, "style": style,
+                                        "via_factory": via_factory})
+    return {dev: e.events for dev, e in ev.items()}
+
+
+_LAYOUT_TEXT = {
+    "permuted-columns": ("exactly the writer's columns in another order (reversed, rotated, two neighbours swapped, "
+                         "seeded shuffles); plus, as a control, the same history with conforming frames only and "
+                         "(unbuffered) the one-shot write() of a permuted frame",
+                         "the frame's rows are well defined by column name: either an exception (a refusal) or the "
+                         "file holds every value under its own column name"),
+    "extra-column": ("the writer's columns plus one more column (last, first, in the middle, after reversed columns; "
+                     "not applied to the SQLite writers, which are handed whole chunks by design)",
+                     "the file cannot hold the extra values: the history has to raise"),
+    "missing-column": ("the writer's columns without one (first, last, middle, reversed order)",
+                       "the rows have no value for one file column: the history has to raise"),
+    "wrong-name-column": ("the writer's columns with one of them under another name (first, last, middle)",
+                          "one column of the frame is not a column of the file: the history has to raise"),
+}
+
+
+def check_writer_layouts(tier, seed):
+    """-> four Checks (one per class of deviating frame), evaluated by the same tasks."""
+    ns = [n for n in _sizes(tier) if n >= 1]
+    n_plans = 4 if tier == "quick" else 8
+    all_sizes = tier != "quick"
+    tasks = [(n, seed, n_plans, ki, all_sizes) for n in reversed(ns) for ki in reversed(range(len(LAYOUT_KINDS)))]
+    results = list(reversed(_pool_map(_layout_task, tasks)))
+    checks = []
+    for dev in DEVIATIONS:
+        frames, demand = _LAYOUT_TEXT[dev]
+        ck = Check("writers_" + dev.replace("-", "_") + "_frames",
+                   "mokapot.tabular_data.{CSVFileWriter,ParquetFileWriter,BufferedWriter,TabularDataWriter."
+                   "from_suffix,TabularDataWriter.check_valid_data}, mokapot.confidence_writer."
+                   "ConfidenceSqliteWriter(level='peptides'): initialize / append_data / finalize",
+                   "one seeded table (seed %d) per row count 1..%d; writers text / Parquet / SQLite unbuffered and "
+                   "behind a DataFrame buffer, text / Parquet behind Dicts and Records buffers, buffer sizes %s; "
+                   "column sets as in writers_read_back (SQLite: the 4 columns of the peptide table, created by the "
+                   "harness); %d append sequences per combination (single rows, one append, empty appends, seeded "
+                   "cuts; Records: single rows only); in each sequence the FIRST row-carrying append, one LATER "
+                   "row-carrying append, or ALL of them get a frame (dict keys / record fields for the other buffer "
+                   "kinds) with: %s; the sequence stops at the first exception, then finalize and, if that raises, "
+                   "the wrapped writer's finalize are called"
+                   % (seed, ns[-1], "2..n+1" if all_sizes else "{2, n//2+1, n+1}", n_plans, frames),
+                   "oracle by column NAME, from the appended frames only: %s; after a refusal the file (read with "
+                   "pandas / pyarrow / sqlite3 directly) must hold a leading part of the storable rows (unbuffered: "
+                   "exactly the rows of the accepted appends), never a value under a foreign column; non-trivial = "
+                   "at least 2 rows and at least one deviating row-carrying append" % demand)
+        _replay_events(ck, [r[dev] for r in results])
+        checks.append(ck)
+    return checks
+
+
 # ------------------------------------------------------------------------------------------------ replay
 def REPLAY(check_name, violation):
     inp = violation["input"]
@@ -560,6 +923,14 @@ def REPLAY(check_name, violation):
                                     [tuple(p) for p in inp["plan"]], inp["style"], inp["via_factory"],
                                     inp.get("stale", False))
         return {"violated": bool(probs), "detail": probs}
+    if check_name in ["writers_" + dev.replace("-", "_") + "_frames" for dev in DEVIATIONS]:
+        n, seed, kind = inp["n"], inp["seed"], tuple(inp["writer"])
+        df = layout_table(n, seed, kind[0])
+        with scratch("c13p_") as d:
+            dev, probs = run_layout_case(d, df, inp["columns"], kind, inp["buffer_size"],
+                                         [tuple(p) for p in inp["plan"]], inp["layouts"], inp["style"],
+                                         inp["via_factory"])
+        return {"violated": bool(probs), "detail": probs, "deviation": dev}
     return {"violated": None, "note": "no replay for %s" % check_name}
 
 
@@ -569,8 +940,10 @@ def _timed(checks):
     done = []
     for fn, tier, seed in checks:
         t = time.time()
-        ck = fn(tier, seed)
-        done.append((ck, time.time() - t))
+        cks = fn(tier, seed)
+        cks = cks if isinstance(cks, list) else [cks]
+        for ck in cks:                              # checks evaluated together report their common time
+            done.append((ck, time.time() - t))
     for ck, elapsed in done:
         ck.t0 = time.time() - elapsed
     return [ck for ck, _ in done]
@@ -579,11 +952,19 @@ def _timed(checks):
 if __name__ == "__main__":
     a = args()
     np.random.seed(a.seed)
-    emit(_timed([(check_readers, a.tier, a.seed), (check_writers, a.tier, a.seed)]),
+    emit(_timed([(check_readers, a.tier, a.seed), (check_writers, a.tier, a.seed),
+                 (check_writer_layouts, a.tier, a.seed)]),
          ["tables have a default RangeIndex, no missing values and no text a CSV parser re-interprets: value "
           "round-tripping through CSV text / Parquet is a pandas / pyarrow matter",
           "BufferedWriter with buffer kind Records is driven with one numpy.record per append (its type "
           "annotation rejects record arrays)",
           "the function of a ComputedTabularDataReader only sees the requested columns of the wrapped reader; the "
           "derived-column cases therefore always request the column it is derived from",
-          "SqliteWriter is abstract (no append_data) and not covered"])
+          "SqliteWriter is abstract (no append_data); its concrete subclass ConfidenceSqliteWriter is covered by the "
+          "column-layout checks only, with level='peptides' (INSERT into a table the harness creates); level='psms' "
+          "(UPDATE of existing rows) is not an append and is not covered",
+          "column-layout checks: any exception out of append_data / finalize counts as a refusal, also one that "
+          "comes later than the deviating append (buffered writers); rows of earlier appends that a refusing "
+          "buffered writer never flushed are not demanded; frames with an extra column are not given to the SQLite "
+          "writer (mokapot.confidence_writer.write_confidences hands it whole chunks by design) and write() is only "
+          "exercised with permuted columns"])
